@@ -525,6 +525,36 @@ class PricerBattery:
                 dp = float(np.max(np.abs(np.asarray(shared.put(K, T)) - np.asarray(FFTPricer(mh).put(K, T)))))
                 if max(dd, dp) > 1e-10:
                     bad("reused-pricer-equals-fresh-pricer", {"pricer": "FFT", "model": "hem", "T": T, "max_call_difference": dd, "max_put_difference": dp})
+            # histories on a pricer / a model: a pricer whose truncation parameter l (or number of terms n) is reassigned prices the
+            # SAME expiry again like a fresh pricer with those settings; a second model that differs from the first in one
+            # parameter only is priced with its own law (FFT = COS on it); a model whose spot is reassigned
+            ev += 1
+            mh = models["hem"]
+            K = np.linspace(85.0, 120.0, 8)
+            pr = COSPricer(mh)
+            pr.call(K, 1.0), pr.digital(K, 1.0)
+            pr.l = 14.0
+            fresh = COSPricer(mh)
+            fresh.l = 14.0
+            dl = max(float(np.max(np.abs(np.asarray(pr.call(K, 1.0)) - np.asarray(fresh.call(K, 1.0))))), float(np.max(np.abs(np.asarray(pr.put(K, 1.0)) - np.asarray(fresh.put(K, 1.0))))),
+                     float(np.max(np.abs(np.asarray(pr.digital(K, 1.0)) - np.asarray(fresh.digital(K, 1.0))))))
+            if dl > 1e-10:
+                bad("reused-pricer-equals-fresh-pricer", {"pricer": "COS", "model": "hem", "T": 1.0, "history": "expiry priced, truncation parameter l reassigned 10 -> 14, same expiry priced again", "max_difference": dl})
+            ev += 1
+            from rpylib.model.utils import create_exponential_of_levy_model as _mk2
+            from rpylib.model.levymodel.levymodel import ModelType as _MT2
+            for pv in (0.3, 0.8):
+                m2 = _mk2(_MT2.HEM)(spot=100.0, r=0.03, d=0.01, sigma=0.1, p=pv, eta1=25.0, eta2=40.0, intensity=5.0)
+                dcf = float(np.max(np.abs(np.asarray(FFTPricer(m2).call(K, 1.0)) - np.asarray(COSPricer(m2).call(K, 1.0)))))
+                if dcf > TOL:
+                    bad("cos-and-fft-agree", {"model": f"HEM p={pv} (second of two models differing in p only)" if pv == 0.8 else f"HEM p={pv}", "T": 1.0, "max_call_difference": dcf})
+            ev += 1
+            m3 = _mk2(_MT2.HEM)(spot=100.0, r=0.03, d=0.01, sigma=0.1, p=0.6, eta1=25.0, eta2=40.0, intensity=5.0)
+            COSPricer(m3).call(K, 1.0), FFTPricer(m3).call(K, 1.0)
+            m3.spot = 120.0
+            dsp = float(np.max(np.abs(np.asarray(FFTPricer(m3).call(K, 1.0)) - np.asarray(COSPricer(m3).call(K, 1.0)))))
+            if dsp > TOL:
+                bad("cos-and-fft-agree", {"model": "HEM after model.spot was reassigned 100 -> 120", "T": 1.0, "max_call_difference": dsp})
             # VG against its CGMY parametrisation
             from rpylib.model.utils import create_exponential_of_levy_model as mk
             from rpylib.model.levymodel.levymodel import ModelType
